@@ -44,3 +44,32 @@ def no_raise(ctx, name, results, allowed=(), kind="assert"):
             n += 1
             ctx.oblige(f"{name}#{n}:{v.exc}@{v.info}", s, z3.BoolVal(False), kind=kind)
     return n
+
+
+def install_collect_ast(ctx):
+    """collect_ast(x, K) as an uninterpreted list-valued function per node kind K with the one fact clingo's
+    Transformer guarantees: every collected node is a K node.  Returns the dict kind -> z3 function."""
+    from pyvc.values import ListObj, SV
+
+    m = ctx.m
+    funcs = {}
+    LA = ("list", "ast")
+
+    def get(name):
+        if name not in funcs:
+            f = ctx.ex.ufunc("collect_" + name, [m.AST], m.sort(LA))
+            funcs[name] = f
+            if name in m.fields:
+                x = z3.Const("x!col" + name, m.AST)
+                j = z3.Int("j!col" + name)
+                ln, at = m.lst_funcs("ast")
+                m.global_axioms.append(z3.ForAll([x, j], z3.Implies(z3.And(0 <= j, j < ln(f(x))), m.is_ctor(name, at(f(x), j))), patterns=[at(f(x), j)]))
+        return funcs[name]
+
+    def collect_ast(e, s, a, k):
+        name = a[1] if len(a) > 1 else k.get("ast_name")
+        return [(s, s.alloc(ListObj(sv=SV(get(name)(a[0].term), LA))))]
+
+    ctx.ex.overrides["ngo.utils.ast:collect_ast"] = collect_ast
+    ctx.assume_note("collect_ast(x, K) is uninterpreted: a list of K nodes (outermost K nodes of x as clingo's Transformer visits them)")
+    return get
